@@ -384,14 +384,51 @@ func c16(env *Env, job *E2Job, T []byte, scan rig.ScanResult, c int64, k int, to
 	}
 	rebuildOK := why == "" && rb != nil && rb.err == nil
 	hasRoot := why == "" && rb != nil && len(rb.tree) > 0 && rb.tree[0].Err == ""
+	// the follow-up write issued FIRST, before anything reads file contents (a read re-acquires and releases the drive and
+	// would mask a drive that Initialize left locked): separate instance over copies, clean tails only
+	if tailClass == "clean" && variant != "stale" {
+		d2 := env.TempDir()
+		_ = CopyFile(dir+"/drive.tar", d2+"/drive.tar")
+		if variant != "absent" {
+			_ = CopyFile(dir+"/index.sqlite", d2+"/index.sqlite")
+		}
+		if s2, err := rig.NewStack(d2, job.Cfg, env.Keys); err == nil {
+			var e2 error
+			_, pan := Guard(func() error { e2 = s2.Init(); return nil })
+			vsync.Quiesce()
+			if pan == "" && e2 == nil {
+				var werr error
+				_, pan = Guard(func() error { werr = ops.ExecImpl(s2, ops.Op{K: "put", P: "/zz", C: "new"}); return nil })
+				vsync.Quiesce()
+				if pan != "" {
+					viol("C16|panic-in-first-write|"+cls, where+"\n"+pan)
+				} else if werr != nil {
+					viol(fmt.Sprintf("C16|first-write-fails|%s|%s", cls, NormErr(werr)), where+"\nthe first call after a successful Initialize (Create /zz) failed: "+werr.Error())
+				} else {
+					b, rerr := rig.ReadFile(s2.FS, "/zz")
+					vsync.Quiesce()
+					if rerr != nil || string(b) != "new" {
+						viol(fmt.Sprintf("C16|first-write-not-retrievable|%s", cls), where+fmt.Sprintf("\n/zz written right after Initialize reads back %q, %v", b, rerr))
+					}
+				}
+			}
+			s2.Close()
+		}
+	}
 	st, err := rig.NewStack(dir, job.Cfg, env.Keys)
 	if err != nil {
 		return
 	}
 	defer st.Close()
 	var ierr error
+	st.ReadBudget = 64*(len(img)/512+1) + 8192
 	_, pan := Guard(func() error { ierr = st.Init(); return nil })
 	vsync.Quiesce()
+	if st.BudgetExceeded {
+		viol("C16|no-progress-in-initialize|"+cls, where+"\nInitialize exceeded the drive-reader step budget (the indexer does not make progress)")
+		return
+	}
+	st.ReadBudget = 0
 	if pan != "" {
 		viol("C16|panic-in-initialize|"+cls, where+"\n"+pan)
 		return
